@@ -242,6 +242,11 @@ theorem map_erase_fix (r : R B) (h : ∀ b', r = .ok b' → erase b' = b') : r =
   | ok b' => simp [Except.map, h b' rfl]
 
 /-- the scalar calls do not look at the erased parts -/
+theorem ctx_map_erase (ann : List (String × String)) (r : R B) : ctx ann (r.map erase) = (ctx ann r).map erase := by
+  cases r with
+  | ok v => rfl
+  | error e => cases e <;> simp [ctx, Except.map] <;> split <;> rfl
+
 theorem pushScalar_erase (ext : Ext) : ∀ (b : B) (x : SVal), pushScalar ext (erase b) x = (pushScalar ext b x).map erase
   | .null p len, x => by
     simp only [erase]
@@ -303,11 +308,11 @@ theorem pushScalar_erase (ext : Ext) : ∀ (b : B) (x : SVal), pushScalar ext (e
     | some s =>
       cases hi : indexOfName index s with
       | some i =>
-        simp only [hi, pushScalar_erase ext idx]
-        cases pushScalar ext idx (.int .u64 i) <;> simp [bind, Except.bind, Except.map, pure, Except.pure, erase]
+        simp only [hi, pushScalar_erase ext idx, erase_ann, ctx_map_erase]
+        cases ctx idx.ann (pushScalar ext idx (.int .u64 i)) <;> simp [bind, Except.bind, Except.map, pure, Except.pure, erase]
       | none =>
-        simp only [hi, pushScalar_erase ext idx, pushScalar_erase ext vals]
-        cases pushScalar ext vals (.str s) <;> cases pushScalar ext idx (.int .u64 index.length) <;>
+        simp only [hi, pushScalar_erase ext idx, pushScalar_erase ext vals, erase_ann, ctx_map_erase]
+        cases ctx vals.ann (pushScalar ext vals (.str s)) <;> cases ctx idx.ann (pushScalar ext idx (.int .u64 index.length)) <;>
           simp [bind, Except.bind, Except.map, pure, Except.pure, erase]
   | .list _ _ _ _ _ _, x => by simp [erase, pushScalar, notSupported, fail, Except.map]
   | .fixedSizeList _ _ _ _ _ _ _, x => by simp [erase, pushScalar, notSupported, fail, Except.map]
